@@ -1,1 +1,115 @@
-// harness bodies compiled inside quinn-proto/src/connection/send_buffer.rs (feature __verif-hooks)
+// Harness bodies for quinn-proto/src/connection/send_buffer.rs.
+
+const V62: u64 = 1 << 62;
+
+/// A SendBuffer whose scalar bookkeeping is arbitrary; segment storage and range sets are empty
+/// (poll_transmit's new-data branch, offset(), is_fully_acked(), has_unsent_data() never look at them).
+pub fn mk_send_buffer(offset: u64, unsent: u64, unacked_len: usize) -> SendBuffer {
+    SendBuffer {
+        unacked_segments: VecDeque::new(),
+        unacked_len,
+        offset,
+        unsent,
+        acks: RangeSet::new(),
+        retransmits: RangeSet::new(),
+    }
+}
+
+fn varint_len(x: u64) -> u64 {
+    if x < 1 << 6 { 1 } else if x < 1 << 14 { 2 } else if x < 1 << 30 { 4 } else { 8 }
+}
+
+/// C01.c: `SendBuffer::poll_transmit`, new-data branch, from an arbitrary buffer state:
+/// the range starts at `unsent`, never passes `offset`, makes progress whenever data is pending
+/// and the caller supplied its guaranteed minimum (>= 17 bytes), fits in `max_len` together with
+/// the STREAM offset and (if requested) length fields, fills the packet exactly when the length
+/// is omitted, and the cursor advances to the end of the range (no byte skipped or sent twice).
+pub fn poll_transmit_new(offset: u64, unsent: u64, unacked_len: usize, max_len: usize) -> u32 {
+    if offset >= V62 || unsent > offset || (unacked_len as u64) > offset || unsent < offset - unacked_len as u64 {
+        return 0;
+    }
+    if max_len < 16 || max_len > 1 << 20 {
+        return 0;
+    }
+    let mut sb = mk_send_buffer(offset, unsent, unacked_len);
+    let had_unsent = sb.has_unsent_data();
+    assert!(had_unsent == (unsent != offset));
+    let (r, encode_length) = sb.poll_transmit(max_len);
+    assert!(r.start == unsent);
+    assert!(r.end >= r.start && r.end <= offset);
+    assert!(sb.unsent == r.end);
+    assert!(sb.offset == offset && sb.unacked_len == unacked_len);
+    let off_bytes = if unsent == 0 { 0 } else { varint_len(unsent) };
+    let len_bytes = if encode_length { 8 } else { 0 };
+    let n = r.end - r.start;
+    assert!(n + off_bytes + len_bytes <= max_len as u64);
+    if !encode_length {
+        // frame without a length field extends to the end of the packet: must fill it exactly
+        assert!(n + off_bytes == max_len as u64);
+    } else {
+        // length is encoded exactly when all remaining data fits with room to spare
+        assert!(offset - unsent < max_len as u64 - off_bytes);
+    }
+    if max_len >= 17 && unsent < offset {
+        assert!(n > 0);
+    }
+    if encode_length && n + off_bytes + len_bytes < max_len as u64 {
+        // room left over only when everything pending was taken
+        assert!(r.end == offset);
+    }
+    let mut f = 1;
+    if encode_length { f |= 2 } else { f |= 4 }
+    if r.end < offset { f |= 8 }
+    if unsent >= 1 << 30 { f |= 16 }
+    core::mem::forget(sb);
+    f
+}
+
+/// Accessors agree with the bookkeeping for every state.
+pub fn accessors(offset: u64, unsent: u64, unacked_len: usize) -> u32 {
+    if unsent > offset || (unacked_len as u64) > offset {
+        return 0;
+    }
+    let sb = mk_send_buffer(offset, unsent, unacked_len);
+    assert!(sb.offset() == offset);
+    assert!(sb.is_fully_acked() == (unacked_len == 0));
+    assert!(sb.has_unsent_data() == (unsent != offset));
+    assert!(sb.unacked() == unacked_len as u64);
+    core::mem::forget(sb);
+    1
+}
+
+/// C01.c (retransmit branch, thorough): with exactly one lost range queued, poll_transmit hands
+/// out a prefix of that range, re-queues the remainder, and leaves the new-data cursor alone.
+pub fn poll_transmit_retransmit(offset: u64, unsent: u64, lo: u64, hi: u64, max_len: usize) -> u32 {
+    if offset >= V62 || unsent > offset || lo >= hi || hi > unsent {
+        return 0;
+    }
+    if max_len < 17 || max_len > 1 << 16 {
+        return 0;
+    }
+    let mut sb = mk_send_buffer(offset, unsent, offset as usize);
+    sb.retransmit(lo..hi);
+    assert!(sb.has_unsent_data());
+    let (r, encode_length) = sb.poll_transmit(max_len);
+    assert!(r.start == lo && r.end > lo && r.end <= hi);
+    assert!(sb.unsent == unsent);
+    let off_bytes = if lo == 0 { 0 } else { varint_len(lo) };
+    let len_bytes = if encode_length { 8 } else { 0 };
+    assert!((r.end - r.start) + off_bytes + len_bytes <= max_len as u64);
+    if !encode_length {
+        assert!((r.end - r.start) + off_bytes == max_len as u64);
+    }
+    let f;
+    if r.end < hi {
+        // remainder stays queued, and comes out next
+        let (r2, _) = sb.poll_transmit(1 << 16);
+        assert!(r2.start == r.end && r2.end <= hi);
+        f = 2;
+    } else {
+        assert!(sb.has_unsent_data() == (unsent != offset));
+        f = 1;
+    }
+    core::mem::forget(sb);
+    f
+}
